@@ -15,7 +15,8 @@ func InitGenesis(ctx sdk.Context, k *keeper.SettlementKeeper, genState types.Gen
 	k.SetParams(ctx, genState.Params)
 
 	for _, utxrWithTenantAndId := range genState.Utxrs {
-		if _, err := k.CreateUTXR(ctx, utxrWithTenantAndId.TenantId, &utxrWithTenantAndId.Utxr); err != nil {
+		utxr := utxrWithTenantAndId.Utxr
+		if err := k.ImportUTXR(ctx, utxrWithTenantAndId.TenantId, utxrWithTenantAndId.Id, &utxr); err != nil {
 			panic(fmt.Errorf("unable to create utxr during init genesis: %w", err))
 		}
 	}
